@@ -6,6 +6,7 @@ pub mod evidence;
 pub mod field;
 pub mod known;
 pub mod par;
+pub mod poly;
 pub mod prng;
 
 /// Exit codes shared by all engines.
